@@ -53,7 +53,8 @@ def main():
             out["demo_patched_tree_rc"] = rc1
             out["demo_patched_tail"] = o1[-600:]
         if not a.skip_suite:
-            rc, o = sh("go test -vet=off -count=1 -timeout 20m ./...", cwd=wt)
+            # private network namespace: the suite uses fixed ports, concurrent runs would collide
+            rc, o = sh("unshare -rn sh -c 'ip link set lo up && go test -vet=off -count=1 -timeout 20m ./...'", cwd=wt)
             out["suite_passes_with_patch"] = rc == 0
             if rc != 0:
                 out["suite_tail"] = o[-800:]
